@@ -13,7 +13,7 @@ from ..observe import observe, lib_args
 from ..monitor import CaseAbort
 from ..refs import components
 
-TIERS = {"quick": 500, "thorough": 6000}
+TIERS = {"quick": 500, "thorough": 20000}
 WATCHDOG_S = {"quick": 900, "thorough": 7200}
 RULE = ("one case = one source container (end state of a generated 8-40 op history of Hypergraph, every 3rd case "
         "DirectedHypergraph) x all its selections: every node subset (<=6 nodes, else 24 random), every list of sizes "
